@@ -72,7 +72,7 @@ def pair_worker(job):
         cls = evolve_mf.EvolvedMFWithBH if kind == "fbh" else evolve_mf.EvolvedMF
         # integrator tolerance tightened from outside (scipy's ode wrapped): at the default 1e-5 the solver's own error on the
         # remnant bins (right-hand side jumps whenever the deposit bin changes) is percent-level and not scale-free
-        with real.recording_ode(rtol=1e-10, atol=1e-10):
+        with real.recording_ode(rtol=1e-10, atol=1e-10, nsteps=10**7):
             a = gen.build(cfg, cls=cls)
             cfg2 = dict(cfg); cfg2["N0"] = cfg["N0"] * lam; cfg2["esc_rate"] = cfg["esc_rate"] * lam
             b = gen.build(cfg2, cls=cls)
